@@ -426,3 +426,28 @@ func handleBoundToName(c *eng.Ctx, rule string) {
 		c.Undecided(rule, nil, 0, "handle bodies", "no entry access found in a handle body")
 	}
 }
+
+
+// wholeInputJSON: the client library decodes JSON it must reject when
+// malformed (cache documents, secret values for struct fields, service
+// replies) with json.Unmarshal, which fails on anything after the first
+// value; a json.Decoder stops after the first value and would accept a
+// document followed by garbage.
+func wholeInputJSON(c *eng.Ctx, rule string) {
+	n := 0
+	for _, f := range c.P.PkgFuncs(setecPkg) {
+		eng.Instrs(f, func(in ssa.Instruction) {
+			ci, ok := in.(ssa.CallInstruction)
+			if !ok {
+				return
+			}
+			if eng.CalleeIs(ci.Common(), "encoding/json", "*Decoder.Decode") || eng.CalleeIs(ci.Common(), "encoding/json", "NewDecoder") {
+				n++
+				c.Bad(rule, f, in.Pos(), eng.CallStr(ci.Common()), "JSON is decoded with json.Unmarshal (the whole input must be one value: trailing bytes are an error)", "a json.Decoder accepts a valid value followed by anything")
+			}
+		})
+	}
+	if n == 0 {
+		c.Ok(rule, nil, 0, "json.Decoder uses in the client library", "none")
+	}
+}
